@@ -33,7 +33,7 @@ ASSUMPTIONS = [
 ]
 TIERS = {"quick": {"examples": 6400, "budget_s": 100}, "thorough": {"examples": 80000, "budget_s": 1500}}
 
-CFG = G.GenCfg(kinds={"set": 6, "slow": 2, "ova": 1, "wait": 3, "pause": 3, "hold": 1, "block": 1, "mark": 2},
+CFG = G.GenCfg(kinds={"set": 6, "slow": 2, "ova": 1, "wait": 3, "pause": 3, "hold": 1, "unpause": 1, "unhold": 1, "block": 1, "mark": 2, "watch": 1},
                max_depth=2, max_top=8, max_children=3, thresholds=False, base_first="s", wait_max=1.0,
                pause_durs=(0.1, 0.2, 0.3, 0.5, 0.5, 1.0, 1.5, 2.0, None, None))
 
